@@ -200,10 +200,15 @@ func SelectAddrFromSubnet(seed []byte, net1 *net.IPNet) (net.IP, error) {
 	bits, addrLen := net1.Mask.Size()
 
 	ipBigInt := &big.Int{}
+	ipLen := 0
 	if v4net := net1.IP.To4(); v4net != nil {
 		ipBigInt.SetBytes(net1.IP.To4())
+		ipLen = net.IPv4len
 	} else if v6net := net1.IP.To16(); v6net != nil {
 		ipBigInt.SetBytes(net1.IP.To16())
+		ipLen = net.IPv6len
+	} else {
+		return nil, fmt.Errorf("invalid subnet address")
 	}
 
 	seedInt, n := binary.Varint(seed)
@@ -233,8 +238,13 @@ func SelectAddrFromSubnet(seed []byte, net1 *net.IPNet) (net.IP, error) {
 
 	randBigInt.And(randBigInt, maskBigInt)
 	ipBigInt.Add(ipBigInt, randBigInt)
+	if ipBigInt.BitLen() > ipLen*8 {
+		return nil, fmt.Errorf("address outside of the address family")
+	}
 
-	return net.IP(ipBigInt.Bytes()), nil
+	// big.Int.Bytes() drops leading zero bytes, which would yield a malformed address for networks
+	// whose first byte is zero: always encode the full address length.
+	return net.IP(ipBigInt.FillBytes(make([]byte, ipLen))), nil
 }
 
 func init() {
